@@ -83,6 +83,8 @@ pub enum Call {
     Anchor(u64, usize, u64),
     /// a5::core::hilbert::ij_to_s((i, j), n, orientation)
     IjToS(f64, f64, usize, u64),
+    /// a5::core::cell::a5cell_contains_point(deserialize(id), (lon, lat))
+    Contains(u64, f64, f64),
 }
 
 fn bits(p: &LonLat) -> String {
@@ -107,6 +109,10 @@ pub fn exec(c: &Call) -> String {
         Call::Area(r) => format!("{:016x} {}", a5::cell_area(*r).to_bits(), a5::get_num_cells(*r)),
         Call::Anchor(sv, n, o) => format!("{:?}", a5::core::hilbert::s_to_anchor(*sv, *n, crate::tables::ori_of(*o))),
         Call::IjToS(i, j, n, o) => format!("{:?}", a5::core::hilbert::ij_to_s(a5::coordinate_systems::IJ::new(*i, *j), *n, crate::tables::ori_of(*o))),
+        Call::Contains(id, lon, lat) => format!(
+            "{:?}",
+            a5::core::serialization::deserialize(*id).and_then(|c| a5::core::cell::a5cell_contains_point(&c, LonLat::new(*lon, *lat))).map(|x| x.to_bits())
+        ),
         Call::Nearest(t, p) => format!(
             "{}",
             a5::core::origin::find_nearest_origin(a5::coordinate_systems::Spherical::new(
@@ -136,6 +142,88 @@ fn seam_lonlat(rng: &mut Rng) -> (f64, f64, f64, f64) {
     (ll.longitude(), ll.latitude(), t, p)
 }
 
+/// a cell description and copies of it that differ in exactly one field (face, segment, resolution), each queried
+/// through several entry points back to back: any state remembered from one call and keyed by only part of the
+/// description (a "last pentagon", "last anchor", "last leading bits" memo) gives a wrong answer here
+fn field_variations(rng: &mut Rng, calls: &mut Vec<Call>) {
+    use a5::core::serialization::serialize;
+    use a5::core::utils::A5Cell;
+    let res = rng.range_i(2, 28) as i32;
+    let max_s: u64 = 1u64 << (2 * (res - 1)).min(62);
+    // positions that stay valid one level up and one level down
+    let s = match rng.below(3) { 0 => 0, 1 => rng.below(4), _ => rng.below(max_s.min(1 << 20)) } % (if res >= 3 { 1u64 << (2 * (res - 2)) } else { 1 });
+    let (o, g) = (rng.below(12) as u8, rng.below(5) as usize);
+    let mk = |o: u8, g: usize, s: u64, r: i32| serialize(&A5Cell { origin_id: o, segment: g, s, resolution: r }).unwrap_or(0);
+    let base = mk(o, g, s, res);
+    let mut variants = vec![
+        mk((o + 1 + rng.below(11) as u8) % 12, g, s, res),
+        mk(o, (g + 1 + rng.below(4) as usize) % 5, s, res),
+        mk(o, g, s, res + 1),
+        mk(o, g, s, (res - 1).max(2)),
+        mk(o, g, 0, 1),
+        mk(o, g, 0, 0),
+    ];
+    rng.shuffle(&mut variants);
+    let centre = a5::cell_to_lonlat(base).map(|p| (p.longitude(), p.latitude())).unwrap_or((0.0, 0.0));
+    let mut entry = |rng: &mut Rng, id: u64| -> Call {
+        let r = crate::search::spec_resolution(id);
+        match rng.below(7) {
+            0 => Call::Centre(id),
+            1 => Call::Boundary(id, Some(1), false),
+            2 => Call::Contains(id, centre.0, centre.1),
+            3 => Call::Parent(id, Some(0)),
+            4 => Call::Parent(id, Some(1.min(r.max(0)))),
+            5 => Call::Children(id, Some((r + 1).min(29))),
+            _ => Call::Lookup(centre.0, centre.1, r.max(0)),
+        }
+    };
+    for v in variants.into_iter().take(4) {
+        calls.push(entry(rng, base));
+        calls.push(entry(rng, v));
+    }
+}
+
+/// compaction inputs with words that are not canonical cells (aliases of the world cell, stray low bits) among base
+/// cells and quintants: the result must not depend on anything but the list
+fn malformed_compact(rng: &mut Rng) -> Call {
+    let base = a5::get_res0_cells().unwrap_or_default();
+    let mut l: Vec<u64> = Vec::new();
+    if rng.chance(1, 3) {
+        // a complete sibling group plus one word that ties with a member in compact's hierarchy order: whether the
+        // group is recognised must not depend on the iteration order of a hash set
+        let f = rng.below(12);
+        l.extend(&base);
+        l.push(((5 * f) << 58) | 1);
+        rng.shuffle(&mut l);
+        return Call::Compact(l);
+    }
+    match rng.below(3) {
+        0 => l.extend(&base),
+        1 => {
+            for &b in &base {
+                if rng.chance(1, 2) {
+                    l.push(b);
+                } else {
+                    l.extend(a5::cell_to_children(b, Some(1)).unwrap_or_default());
+                }
+            }
+        }
+        _ => l.extend(compact_input(rng, false)),
+    }
+    for _ in 0..(1 + rng.below(3)) {
+        l.push(match rng.below(5) {
+            // a word that sorts like a base cell in the hierarchy order of compact: (5 * face) << 58 | 1
+            4 => ((5 * rng.below(12)) << 58) | 1,
+            0 => 1 + rng.below(15),
+            1 => base[rng.below(12) as usize] | (1 + rng.below(255)),
+            2 => (rng.below(64) << 58) | (1u64 << 57),
+            _ => rng.next(),
+        });
+    }
+    rng.shuffle(&mut l);
+    Call::Compact(l)
+}
+
 pub fn random_call(rng: &mut Rng) -> Call {
     if rng.chance(1, 3) {
         let (lon, lat, t, p) = seam_lonlat(rng);
@@ -162,7 +250,7 @@ pub fn random_call(rng: &mut Rng) -> Call {
 
 pub fn search_c13(rng: &mut Rng, thorough: bool) -> SearchResult {
     let mut r = SearchResult::default();
-    r.rule = "random sequences of public calls (lookups, centres, boundaries, hierarchy, compaction, metadata, curve functions; with correlated runs: seam-hugging points after a call on the neighbouring face, and the same curve position under different orientations / quintants / faces back to back): each result, rendered bit-exactly, is compared with the same call executed as the FIRST call of a fresh thread; then N threads run random sequences concurrently and every result is compared with the single-threaded reference. non-trivial = calls that touch the projection memo (lookup / centre / boundary)".into();
+    r.rule = "random sequences of public calls (lookups, centres, boundaries, hierarchy, compaction, metadata, curve functions; with correlated runs: seam-hugging points after a call on the neighbouring face, the same curve position under different orientations / quintants / faces back to back, a cell description and copies differing in one field (face, segment, resolution) through several entry points back to back, compaction of lists containing non-canonical words): each result, rendered bit-exactly, is compared with the same call executed as the FIRST call of a fresh thread; then N threads run random sequences concurrently and every result is compared with the single-threaded reference. non-trivial = calls that touch the projection memo (lookup / centre / boundary)".into();
     let seqs = if thorough { 100 } else { 20 };
     let len = if thorough { 150 } else { 90 };
     for _ in 0..seqs {
@@ -188,6 +276,10 @@ pub fn search_c13(rng: &mut Rng, thorough: bool) -> SearchResult {
                         calls.push(Call::Lookup(ll.longitude(), ll.latitude(), rng.range_i(0, 4) as i32));
                     }
                 }
+            } else if rng.chance(1, 6) {
+                field_variations(rng, &mut calls);
+            } else if rng.chance(1, 12) {
+                calls.push(malformed_compact(rng));
             } else if rng.chance(1, 5) {
                 // the same curve position asked for under different orientations / in different quintants and faces,
                 // back to back: any state keyed by (position, depth) only shows here
@@ -229,7 +321,7 @@ pub fn search_c13(rng: &mut Rng, thorough: bool) -> SearchResult {
             let c2 = c.clone();
             let fresh = thread::spawn(move || exec(&c2)).join().unwrap();
             r.evaluations += 1;
-            if matches!(c, Call::Lookup(..) | Call::Centre(..) | Call::Boundary(..) | Call::Nearest(..) | Call::Anchor(..) | Call::IjToS(..)) {
+            if matches!(c, Call::Lookup(..) | Call::Centre(..) | Call::Boundary(..) | Call::Nearest(..) | Call::Anchor(..) | Call::IjToS(..) | Call::Contains(..)) {
                 r.nontrivial += 1;
             }
             if &fresh != want {
